@@ -275,7 +275,7 @@ impl<'a> Gen<'a> {
         } else if r < 94 {
             Target::Account(self.rng.below(self.n_accounts as u64) as u32)
         } else if r < 96 {
-            Target::Ghost(self.rng.below(24) as u32)
+            Target::Ghost(self.rng.below(27) as u32)
         } else if r < 98 {
             Target::Next
         } else {
@@ -294,7 +294,7 @@ impl<'a> Gen<'a> {
         } else if r < 85 {
             Target::SelfAddr
         } else if r < 94 {
-            Target::Ghost(self.rng.below(24) as u32)
+            Target::Ghost(self.rng.below(27) as u32)
         } else if r < 97 {
             Target::Next
         } else {
@@ -347,6 +347,8 @@ impl<'a> Gen<'a> {
     fn key(&mut self) -> KeySpec {
         if self.pc(self.p.adversarial_keys) {
             KeySpec::RootSuffix { idx: self.rng.below(4096) as u32, cut: if self.rng.chance(1, 4) { 0 } else { self.rng.below(64) as u32 } }
+        } else if self.rng.chance(1, 150) {
+            KeySpec::Long { byte: *self.rng.pick(&[b'k', 0u8, 0xff]), len: *self.rng.pick(&[65_535u32, 65_536, 65_537, 70_000]) }
         } else if self.rng.chance(1, 8) {
             let n = self.rng.usize(4);
             KeySpec::Lit(self.rng.bytes(n))
@@ -463,6 +465,9 @@ impl<'a> Gen<'a> {
                         }
                         n.writes.push(WriteOp::Bulk { tag, n: cnt, salt: (nid % 200) as u8 + 1 });
                     }
+                } else if self.rng.chance(1, 60) {
+                    let k = self.recent_or_key();
+                    n.writes.push(WriteOp::Hammer { k, n: *self.rng.pick(&[33u16, 64, 65, 70, 129, 150]) });
                 } else if self.rng.chance(1, 8) {
                     let k = self.recent_or_key();
                     n.writes.push(WriteOp::Restore { k, rewrite_only: self.rng.chance(1, 3) });
@@ -597,10 +602,10 @@ impl<'a> Gen<'a> {
                     4 | 5 => MsgSpec::Undelegate { val, coin },
                     6 => MsgSpec::Redelegate { src: val, dst: self.rng.below(self.n_validators as u64 + 1) as u32, coin },
                     _ => {
-                        if self.rng.chance(1, 2) {
-                            MsgSpec::SetWithdraw { to: self.target_any() }
-                        } else {
-                            MsgSpec::Withdraw { val }
+                        match self.rng.below(5) {
+                            0 | 1 => MsgSpec::SetWithdraw { to: self.target_any() },
+                            2 => MsgSpec::FundPool { coins: self.coins(false) },
+                            _ => MsgSpec::Withdraw { val },
                         }
                     }
                 }
